@@ -65,6 +65,13 @@ PROPS['C01'] = dict(
                'call protocol (arity check, frame push/pop, return value placement)',
                'A-float: IEEE operators are named, uninterpreted functions of (left, right)'],
 )
+PROPS['C02'] = dict(
+  level='proof',
+  verus=[dict(unit='ops', min_functions=8)],
+  explanation='the VM half only: the box / capture handlers and op_closure; the resolver and compiler half of the capture protocol is outside reach',
+  not_decided=['which variables the resolver marks as captured, which CaptureIndex operands the compiler emits (resolve_capture / add_capture), fresh variables per loop iteration / call as a COMPILER property (EmptyBox / Box placement), name resolution (innermost declaration)',
+               'A-shape preconditions of the handlers: a Local operand names a frame slot that holds a box, an Enclosing operand an existing capture; A-enc: the capture operand decodes to what the encoder wrote'],
+)
 PROPS['C03'] = dict(
   level='proof',
   verus=[dict(unit='ops', min_functions=10), dict(unit='peephole', min_functions=2), dict(unit='klass', min_functions=4), dict(unit='calls', min_functions=1), dict(unit='ncall', min_functions=1)],
